@@ -388,6 +388,7 @@ async def exec_case(ctx, r: random.Random, index: int):
                     result = self.work(threading.Event())
                     if sc["race"] is not None and sc["race"][0] == phase["n"]:
                         _, rpath, rkind = sc["race"]
+                        was, obs["recording"] = obs.get("recording"), False  # not a write of the executor
                         async with db:
                             f = wf.find(File, rpath)
                             if rkind == "unconfirm":
@@ -395,6 +396,7 @@ async def exec_case(ctx, r: random.Random, index: int):
                                 wf.declare_static_files(wf.find(Step, "./plan.py"), [rpath])
                             else:
                                 wf.update_file_hashes({rpath: FileHash.unknown()}, cause=HashUpdateCause.FAILED)
+                        obs["recording"] = was
                         obs["raced"] = rpath
                     return result
 
@@ -915,6 +917,36 @@ def run_build_case(spec: dict) -> dict:
                 finding("dispatch-after-drain", f"jobs {late} were dispatched after the job of '{run.label}' that "
                         f"drained the scheduler had been retired", external=ext,
                         events=[list(e[:2]) for e in res.events][-40:])
+    # (d) freshness: an amend must not accept a BUILT input whose producer completed successfully after the
+    # amending command had started (the consumer may have read the file before it was rebuilt)
+    producers = {}
+    if watch.samples:
+        for f_label, (st, det, creator) in watch.samples[-1][3].items():
+            if creator is not None:
+                producers[f_label] = creator
+    amended = {}
+    for step in model.steps:
+        amended[step.cmd] = list(step.amend_inp)
+    for run in res.runs:
+        for index, t_amend, name, result in run.actions:
+            if name != "amend" or result is not True:
+                continue
+            for path in amended.get(run.label, []):
+                prod = producers.get(path)
+                if prod is None or prod == run.label:
+                    continue
+                count("accepted-amends-of-built-inputs")
+                for prun in res.runs:
+                    label_tags = tags.get(prun.label, [])
+                    ptag = label_tags[prun.attempt - 1] if prun.attempt - 1 < len(label_tags) else None
+                    if prun.label == prod and prun.end is not None and ptag == "SUCCESS" and \
+                            run.start < prun.end < t_amend:
+                        finding("amend-accepted-input-built-during-run",
+                                f"step '{run.label}' (command started at logical time {run.start}) amended the input "
+                                f"'{path}' at time {t_amend} and was told to carry on, although its producer '{prod}' "
+                                f"finished a successful run at time {prun.end}, after the amending command had started: "
+                                f"ran_concurrently did not report it", step=run.label, path=path, producer=prod,
+                                external=ext, events=[list(e[:2]) for e in res.events][-40:])
     # (c) no command starts before its declared inputs are available
     for run in res.runs:
         sample = watch.before(run.start)
